@@ -162,7 +162,8 @@ def st_map_fd(draw):
 @subcheck("C12", "map_fd", st_map_fd, quick=4000, thorough=80000,
           rule="one feature-map class drawn from all 21 registered classes (enumerated from ALL_CLASSES) with drawn "
                "indices (10% coincident) and log-uniform parameters never pinned to 1; raw features in the class's "
-               "admissible domain, density 1e-6..50 (above the 1e-10 clamp); oracle: 4th-order finite difference of "
+               "admissible domain, density 1e-6..50 (above the 1e-10 clamp); in half of the cases the map's value routine is first called on "
+               "another batch of the same size (call order of a spin-polarised evaluation); oracle: 4th-order finite difference of "
                "sum_s w_s*y_s in every raw feature vs fill_deriv_; non-trivial = some |derivative| > 1e-8; "
                "distinct by (class, indices, parameter bucket)",
           tolerances={"fd_rtol": 1e-6})
@@ -173,6 +174,12 @@ def map_fd(case, ctx):
     n0, ns = case["n0"], case["nsamp"]
     x = raw_features([spec], n0, ns, case["seed"])
     w = rng_from(case["seed"] + 1).uniform(0.5, 1.5, ns)
+    if case["seed"] % 2:
+        # call order as in a spin-polarised evaluation: values for another batch of the same size first (all channels),
+        # derivatives afterwards; a map object may not remember anything from a value call
+        ctx.event("value_call_on_other_data_first")
+        other = raw_features([spec], n0, ns, case["seed"] + 977)
+        m.fill_feat_(np.zeros(ns), other.copy())
     dfdx = np.zeros((n0, ns))
     m.fill_deriv_(dfdx, w.copy(), x.copy())
     ctx.event("class=" + spec["code"])
